@@ -16,7 +16,7 @@ SPEC = {
          "eval": "fun c => let '(s, w, d, op, v, r) := c in check_c01 s w d op v 300 r", "per_shard": 25},
     ],
     "classes": CLASSES,
-    "n_quick": 400, "n_thorough": 8000,
+    "n_quick": 400, "n_thorough": 1600,
     "level": "proof",
     "what_violation": "response data differs from the specification's execution algorithm",
     "rule": ("derive-built schema family (objects, 2 interfaces, union, enum, every list/nullability wrapper) with data-driven resolvers; "
